@@ -176,6 +176,8 @@ def caddsub_concrete(p, m):
 def cmul(p):
     """mpc_mul / mpc_square / mpc_mul_mpf / operator and fmul routes: each part is the correctly rounded exact component"""
     zb_, wb_, zo, wo, prec, rnd, fn = p['zbc'], p['wbc'], p['zoff'], p['woff'], p['prec'], p['rnd'], p['fn']
+    if fn == 'mpc_square':
+        wb_, wo = zb_, zo            # the second operand IS the first: sizes for the width/range bounds must be z's
     tot = max(zb_) + max(wb_)
     precise = p.get("precise", tot <= 12)
     mx = tot + abs(zo) + abs(wo)
